@@ -86,6 +86,22 @@ def run(rep, tier):
     for d in modecheck.run_cases("C09", rid, tier, cases, None):
         rep.merge(d)
     rep.floor_discharged(rid, len(cases))
+    # D6: the byte-level state operations, through which every mode reads and writes the state, act on the same
+    # canonical bytes in every C back end (the C08.D2 obligations for unaligned offsets and sizes that end inside a word)
+    from . import rules_c08
+    import concurrent.futures as cf
+    rid = "C09.D6"
+    rep.rule(rid, "byte-level state operations act on the same canonical bytes in every C back end (unaligned offsets, in-word ends)")
+    builds = repo.configure_many([repo.Config(b) for b in ("c64", "c32", "direct")])
+    jobs = []
+    for b in builds:
+        lr = repo.lower(b, group="lib", level="O0", langs=("c",), scev=True)
+        for offs in ([0, 1, 7], [8, 9, 15], [17, 31, 33], [38, 39, 40]):
+            jobs.append((lr.json, b.cfg.name, "quick", "bytes", offs, rid))
+    with cf.ProcessPoolExecutor(max_workers=repo.JOBS) as ex:
+        for d in ex.map(rules_c08._worker, jobs):
+            rep.merge(d)
+    rep.floor(rid, 200 * len(builds))
 
 
 def rule_d2(rep, tier):
